@@ -263,6 +263,12 @@ func TestVerifC19(t *testing.T) {
 		if _, err := GetClientTLSConfig(TLSConfig{RemoteCAPath: bundle.path, CAServerName: serverName}); err == nil {
 			res.Violate("tls/bad-ca-bundle-accepted/client/"+bundle.name, fmt.Sprintf("GetClientTLSConfig accepted a %s CA bundle", bundle.name), map[string]any{"bundle": bundle.name})
 		}
+		// the same with the proxy's own certificate configured next to the unusable bundle
+		evals++
+		nontrivial++
+		if cfg, err := GetClientTLSConfig(TLSConfig{CertificatePath: proxyCert.CertPath, KeyPath: proxyCert.KeyPath, RemoteCAPath: bundle.path, CAServerName: serverName}); err == nil {
+			res.Violate("tls/bad-ca-bundle-accepted/client+own-cert/"+bundle.name, fmt.Sprintf("GetClientTLSConfig (own certificate configured) accepted a %s CA bundle: RootCAs set=%v, so the host's system roots decide which servers are trusted", bundle.name, cfg.RootCAs != nil), map[string]any{"bundle": bundle.name, "own_cert": true})
+		}
 	}
 	// two configurations with different CAs in one process must not influence each other
 	other, err := GetClientTLSConfig(TLSConfig{RemoteCAPath: ca2.Path, CAServerName: serverName})
